@@ -127,11 +127,14 @@ class TapeRecorder(object):
         """
         Make sure currently active recording will be sampled (unless explicitly discarded or set to ignore enforcement)
         """
-        if self._active_recording is not None:
-            if self._active_recording_parameters.ignore_enforced_sampling:
+        # Read the shared state once, another thread may discard the recording at the same time
+        recording = self._active_recording
+        recording_parameters = self._active_recording_parameters
+        if recording is not None and recording_parameters is not None:
+            if recording_parameters.ignore_enforced_sampling:
                 return
             _logger.info(
-                u'Recording with id {} sampling is enforced'.format(self._active_recording.id))
+                u'Recording with id {} sampling is enforced'.format(recording.id))
             self._force_sample = True
 
     @property
